@@ -420,10 +420,18 @@ pub trait PixelDataWriter {
     ) -> EncodeResult<Vec<AttributeOp>> {
         let frames = src.number_of_frames().unwrap_or(1);
         let mut out = Vec::new();
+        // byte offset of the next frame's item tag,
+        // counted from the first item after the offset table
+        let mut offset: u32 = dst.iter().map(|f| 8 + ((f.len() as u32 + 1) & !1)).sum();
         for frame in 0..frames {
             let mut frame_data = Vec::new();
             out = self.encode_frame(src, frame, options.clone(), &mut frame_data)?;
-            offset_table.push(frame_data.len() as u32 + 8 * (frame + 1));
+            // fragments must have an even length
+            if frame_data.len() % 2 == 1 {
+                frame_data.push(0);
+            }
+            offset_table.push(offset);
+            offset += frame_data.len() as u32 + 8;
             dst.push(frame_data);
         }
         Ok(out)
